@@ -38,7 +38,17 @@ def one(name):
             out["error"] = "patch does not apply: " + r.stderr[-300:]
             return out
         t0 = time.time()
-        p = sh([os.path.join(VERIF, "check"), prop, "--noevidence"],
+        # a seed recorded as caught by the thorough tier only is run there
+        ck = meta.get("checks", {})
+        tier = "quick"
+        if not any(v.get("violation") for k, v in ck.items()
+                   if "/quick/" in k) and any(
+                v.get("violation") for k, v in ck.items()
+                if k.startswith(prop + "/thorough/")):
+            tier = "thorough"
+        out["tier"] = tier
+        p = sh([os.path.join(VERIF, "check"), prop, "--tier", tier,
+                "--noevidence"],
                cwd=VERIF, env=dict(os.environ, VERIF_REPO=scratch,
                                    VERIF_SEED=os.environ.get("VERIF_SEED",
                                                              "0")))
